@@ -270,7 +270,9 @@ func (m *semModel) try(n uint32, s uint64) bool {
 func (m *semModel) Apply(op []string) string {
 	n, s := uint32(atoi(op[1])), uint64(atoi(op[2]))
 	switch op[0] {
-	case "TryAcquire", "Acquire0":
+	case "TryAcquire", "Acquire0", "AcquireB":
+		// a blocking Acquire takes effect in its last critical section: it succeeds iff the weight fits THEN;
+		// it gives up (deadline passed, or weight above the maximum) only right after a failed attempt
 		return itoa(b2i(m.try(n, s)))
 	case "Release":
 		if m.pn < n || m.ps < s {
@@ -328,7 +330,12 @@ func (c *semComp) Gen(r *rand.Rand, t, i int, lin bool) []string {
 	switch {
 	case x < 30:
 		return []string{"TryAcquire", n, s}
+	case x < 36:
+		return []string{"Acquire0", n, s}
 	case x < 40:
+		if lin {
+			return []string{"AcquireB", n, s}
+		}
 		return []string{"Acquire0", n, s}
 	case x < 65:
 		return []string{"Release", n, s}
@@ -358,6 +365,8 @@ func (c *semComp) Exec(t int, op []string) string {
 		// deadline in the past: never waits (when the weight does not fit, the loop sees the deadline
 		// passed and returns false)
 		return itoa(b2i(c.s.Acquire(m, -time.Second)))
+	case "AcquireB": // really blocks on the condition variable, up to 2 ms
+		return itoa(b2i(c.s.Acquire(m, 2*time.Millisecond)))
 	case "AcquireWait": // STRESS only: really waits on the condition variable; a helper releases
 		c.waker()
 		go func() { time.Sleep(200 * time.Microsecond); c.s.Release(m) }()
